@@ -229,6 +229,7 @@ pub struct Spec {
     pub events: Vec<String>,
     pub deps: Vec<String>,
     pub has_pred: bool,
+    pub is_result: bool,
 }
 
 pub fn parse_spec(s: &str) -> Spec {
@@ -249,6 +250,7 @@ pub fn parse_spec(s: &str) -> Spec {
         events: l(p[11]),
         deps: l(p[12]),
         has_pred: p[8] == "1" || p[9] == "1",
+        is_result: p[7] == "1" || p.get(15).map(|x| *x == "1").unwrap_or(false),
     }
 }
 
